@@ -160,6 +160,13 @@ theorem compile_loop_refines_stabilizer_semantics (c : Circuit) (hgood : c.Good)
       some (TabSpec.gstate s'.t, sc) :=
   ⟨(Commute.stabRun_refines c hgood har seq d script s' h).1.valid, (Commute.stabRun_refines c hgood har seq d script s' h).2⟩
 
+/-- the hypothesis `hout` of the theorems below, spelled out: the per-register outcome streams of two runs agree iff on every
+    register the measuring operations recorded, in the order of that wire, the same outcomes (`Commute.outsOn`) -/
+theorem same_outcome_streams_iff (c c' : Circuit) (seq seq' : List Nat) (outs outs' : List Bool) :
+    Commute.feed c.ne c.np (c.sops seq) outs (fun _ => []) = Commute.feed c'.ne c'.np (c'.sops seq') outs' (fun _ => []) ↔
+      ∀ r, Commute.outsOn c.ne c.np (c.sops seq) outs r = Commute.outsOn c'.ne c'.np (c'.sops seq') outs' r :=
+  Commute.feed_eq_iff _ _ _ _ _ _ _ _
+
 /-- **and conversely (completeness)**: every run of the compile sequence that is possible in the group semantics — from
     `|0…0⟩`, reading the outcome streams `F` completely — is produced by the compile loop in probabilistic mode under some
     script of drawn bits: the loop ends in a tableau with exactly the final group and records exactly the outcomes read -/
